@@ -52,6 +52,7 @@ type FnCtx struct {
 	depth        int
 	closure      bool
 	globalWrites []*types.Var
+	gen          *genInfo // non-nil: a closure of generated code (call-site hooks active)
 	nameSuffix   string // appended to obligation names while deferred calls run at an exit
 }
 
@@ -67,7 +68,7 @@ func (fc *FnCtx) oblige(st *State, kind string, goal *Term, pos token.Pos, note 
 
 func (fc *FnCtx) obligeNamed(st *State, name, kind string, goal *Term, pos token.Pos, note string) {
 	name += fc.nameSuffix
-	o := &Obligation{Name: name, Kind: kind, Func: fc.name, Hyps: st.Hyps(), Goal: goal, Pos: fc.e.posStr(pos), Note: note}
+	o := &Obligation{Name: name, Kind: kind, Func: fc.name, Hyps: st.Hyps(), Goal: goal, Pos: fc.e.posStr(pos), Note: note, AbsPrefix: fc.gen != nil}
 	if goal.IsTrue() {
 		o.Verdict = "unsat"
 		o.Solver = "simplifier"
@@ -157,6 +158,13 @@ func (fc *FnCtx) execBlock(st *State, stmts []ast.Stmt) []Outcome {
 		if len(cur) == 0 {
 			break
 		}
+		if fc.c != nil && len(fc.c.Running) > 0 && fc.nameSuffix == "" {
+			if _, isDecl := s.(*ast.DeclStmt); !isDecl {
+				for _, c := range cur {
+					fc.checkRunning(c, s)
+				}
+			}
+		}
 		if len(cur) > 64 {
 			panic(unsupported("path explosion (>64 live states)"))
 		}
@@ -165,6 +173,33 @@ func (fc *FnCtx) execBlock(st *State, stmts []ast.Stmt) []Outcome {
 		outs = append(outs, Outcome{kind: oFall, st: c})
 	}
 	return outs
+}
+
+// checkRunning: running invariants are proved after every statement and then
+// assumed, which cuts long chains of facts into single steps.
+func (fc *FnCtx) checkRunning(st *State, after ast.Stmt) {
+	for k, rc := range fc.c.Running {
+		sc := fc.specCtx(st, nil)
+		sc.pol = 1
+		var t *Term
+		func() {
+			defer func() {
+				if r := recover(); r != nil {
+					if u, ok := r.(unsupportedErr); ok && strings.Contains(u.msg, "unknown identifier") {
+						t = nil // a variable of the invariant is not declared yet
+						return
+					}
+					panic(r)
+				}
+			}()
+			t = sc.evalBool(rc.Expr)
+		}()
+		if t == nil {
+			continue
+		}
+		fc.oblige(st, fmt.Sprintf("running%d", k+1), t, after.Pos(), rc.Text)
+		st.Assume(t)
+	}
 }
 
 func (fc *FnCtx) ec(st *State) *evalCtx {
@@ -236,7 +271,7 @@ func (fc *FnCtx) exec(st *State, s ast.Stmt) []Outcome {
 					rets = append(rets, st.vars[r])
 				}
 			}
-		} else if len(x.Results) == 1 && fc.sig.Results().Len() > 1 {
+		} else if _, isTuple := fc.info.TypeOf(x.Results[0]).(*types.Tuple); len(x.Results) == 1 && fc.sig.Results().Len() > 1 && isTuple {
 			tv := ec.eval(x.Results[0]).(*TupleV)
 			rets = tv.Vs
 		} else {
@@ -765,15 +800,12 @@ func (fc *FnCtx) havocGhosts(st *State, nodes ...ast.Node) {
 			delete(st.ghost, k) // re-materialised lazily in the new epoch
 		}
 	}
-	for _, v := range st.vars {
-		switch w := v.(type) {
-		case *IfaceV:
-			if _, isBuf := ec.bufferObject(w); isBuf {
-				continue
-			}
-			_ = w
+	for id, obj := range st.heap {
+		if sv, ok := obj.(*StructV); ok && sv.F["$target"] != nil {
+			st.heap[id] = sv.With("buf", Var(fc.e.fresher.name("loop.pending"), SStr)).With("$err", Var(fc.e.fresher.name("loop.sticky"), SInt))
 		}
 	}
+	_ = ec
 }
 
 func fieldType(t types.Type, name string) types.Type {
@@ -1078,7 +1110,20 @@ func (e *Engine) contractForFunc(fn *types.Func) *Contract {
 			recv = n.Obj().Name()
 		}
 	}
-	return e.cs.Contracts[contractKey(fn.Pkg().Path(), recv, fn.Name())]
+	c := e.cs.Contracts[contractKey(fn.Pkg().Path(), recv, fn.Name())]
+	if c == nil || c.Impl == "" {
+		return c
+	}
+	if m, ok := e.effCache[c.Key()]; ok {
+		return m
+	}
+	tgt := e.locate(c)
+	if tgt == nil {
+		return c
+	}
+	m := e.effective(c, tgt)
+	e.effCache[c.Key()] = m
+	return m
 }
 
 // applyUses instantiates lemma uses / ghost asserts registered for a program point.
